@@ -1175,10 +1175,12 @@ def model_events(ctx, pkg, recs, meta):
             with warnings.catch_warnings():
                 warnings.simplefilter("ignore")
                 eq = int(ok and (emb == m) and (m == emb) and str(emb) == str(m))
-                try:
-                    back = int(pkg.support.get_model(cls) is emb and (isinstance(m, pydsdl.ServiceType) or pkg.support.get_class(m) is cls))
-                except Exception:  # noqa
+                why = ""
+                try:  # reflection: get_class is the inverse of get_model (for the source model and for the embedded one)
+                    back = int(pkg.support.get_model(cls) is emb and pkg.support.get_class(m) is cls and pkg.support.get_class(emb) is cls)
+                except Exception as ex:  # noqa
                     back = 0
+                    why = "(get_class raised %s: %s)" % (type(ex).__name__, ex)
             embd = model_digest(emb) if ok else dict(model_digest(m), kind=cps("not-a-model"))
         except Exception as ex:  # noqa
             raise MachineryFailure("cannot digest the model of %s: %r" % (cls, ex))
@@ -1192,7 +1194,7 @@ def model_events(ctx, pkg, recs, meta):
             except Exception:  # noqa
                 pass
         recs.append({"id": rid, "ev": "model", "src": model_digest(m), "emb": embd, "eq": eq, "back": back})
-        meta[rid] = {"type": str(m), "op": "model", "tag": "service" if isinstance(m, pydsdl.ServiceType) else
+        meta[rid] = {"type": str(m), "op": "model", "exc": why, "tag": "service" if isinstance(m, pydsdl.ServiceType) else
                      ("delimited" if isinstance(m, pydsdl.DelimitedType) else "sealed")}
         ctx.count()
         ctx.distinct("m|" + sha(json.dumps(recs[-1]["src"]))[:12])
@@ -1211,13 +1213,38 @@ def is_plain(b, top=True):
     return type(b) in (str, bool, int, float)
 
 
+def full_cand(reg, d):
+    """deterministic valid value that populates everything: arrays at capacity (<= 4 elements), nested unions on their LAST option"""
+    k = d["k"]
+    if k in ("uint", "int"):
+        return int_range(d)[1]
+    if k == "float":
+        return 1.5
+    if k == "bool":
+        return True
+    if k == "comp":
+        c = reg[d["name"]]
+        return build_full(reg, c, len(c.fields) - 1 if c.union else None)
+    n = d["n"] if k == "farr" else min(d["cap"], 4)
+    return [full_cand(reg, d["e"]) for _ in range(n)]
+
+
+def build_full(reg, comp, option=None):
+    fields = comp.fields if option is None else [comp.fields[option]]
+    with warnings.catch_warnings():
+        warnings.simplefilter("ignore")
+        return comp.cls(**{py: full_cand(reg, d) for py, _, d in fields})
+
+
 def rt_events(ctx, pkg, recs, meta, n_obj):
     rng = ctx.rng
     sup = pkg.support
     for name in sorted(pkg.comps):
         comp = pkg.comps[name]
-        for _ in range(n_obj):
-            o = build_valid(rng, pkg.comps, comp)
+        # every union option once and every array (of composites) populated, then seeded random objects
+        objs = [build_full(pkg.comps, comp, g) for g in range(len(comp.fields))] if comp.union else [build_full(pkg.comps, comp)]
+        for i in range(len(objs) + n_obj):
+            o = objs[i] if i < len(objs) else build_valid(rng, pkg.comps, comp)
             rec = {"id": len(recs), "ev": "rt", "a": [], "b": [], "erra": "none", "errb": "none", "plain": 1}
             info = {"type": name, "op": "rt", "tag": "union" if comp.union else "struct", "obj": _short(o)}
             with warnings.catch_warnings():
@@ -1252,12 +1279,9 @@ def judge(ctx, recs, meta):
         info = meta[rid]
         if clause.startswith("harness"):
             raise MachineryFailure("harness produced an inconsistent record (%s): %r" % (clause, info))
-        if clause == "pyobj.model.get_class":
-            ctx.drift("nunavut_support.get_class(model) does not return the class of %s (reflection helper, not part of the statement)" % info["type"])
-            continue
         sig = "C18|%s|%s" % (clause, info["tag"])
         what = {"ctor": "constructor %(type)s(%(kw)s) -> %(exc)s", "assign": "%(type)s.%(field)s = %(x)s -> %(exc)s",
-                "model": "%(type)s._MODEL_ differs from the source model", "rt": "%(type)s: %(obj)s"}[info["op"]] % dict({"exc": "", "kw": ""}, **info)
+                "model": "%(type)s: _MODEL_ / get_class(get_model(cls)) does not reflect the source model %(exc)s", "rt": "%(type)s: %(obj)s"}[info["op"]] % dict({"exc": "", "kw": ""}, **info)
         ctx.violation(sig, "%s  [T-layer clause %s]" % (what, clause), {"dir": "code->spec", "seed": ctx.seed, "tier": ctx.tier, "record": recs_by_id(recs, rid), "info": info})
     return rej
 
@@ -1361,6 +1385,33 @@ def selftests(ctx, pkg, hists, recs, rejected):
         ctx.selftest("corrupted record is rejected by PyObjectTrace with %s" % clause, rej.get(i) == clause)
 
 
+NS_KEYWORDS = ["global", "if", "def", "class", "lambda", "import"]           # Python keywords that are legal DSDL names
+NS_BUILTINS = ["filter", "input", "range", "format", "id", "map", "list", "set"]  # stropped by the generator, not keywords
+NS_PLAIN = ["plain", "sensor"]
+NS_ROOTS = ["filter", "global", "c18n"]
+
+
+def namespace_files(root):
+    """types in root / nested namespaces named after keywords, non-keyword builtins and ordinary words; arrays of composites and
+    unions whose options are composites from those namespaces (update_from_builtin has to find their classes by model)"""
+    subs = NS_KEYWORDS + NS_BUILTINS + NS_PLAIN
+    files = {"Tap.1.0.dsdl": "int16 gain\nuint8 delay\n@sealed\n"}
+    bank = ["uint8 channel", "%s.Tap.1.0[<=2] taps" % root]
+    choice = ["@union", "uint8 raw", "%s.Tap.1.0 tap" % root]
+    for i, sub in enumerate(subs):
+        files["%s/Leaf.1.0.dsdl" % sub] = "uint8 a\nint8[<=2] b\n@sealed\n"
+        files["%s/deep/Un.1.0.dsdl" % sub] = "@union\nuint8 raw\n%s.%s.Leaf.1.0 leaf\n%s.Tap.1.0[<=2] taps\n@sealed\n" % (root, sub, root)
+        files["%s/%s/Inner.1.0.dsdl" % (sub, NS_BUILTINS[i % len(NS_BUILTINS)])] = "%s.%s.Leaf.1.0[2] pair\n@extent 512\n" % (root, sub)
+        bank.append("%s.%s.Leaf.1.0[<=2] a%d" % (root, sub, i))
+        bank.append("%s.%s.%s.Inner.1.0[1] i%d" % (root, sub, NS_BUILTINS[i % len(NS_BUILTINS)], i))
+        choice.append("%s.%s.Leaf.1.0 o%d" % (root, sub, i))
+        choice.append("%s.%s.deep.Un.1.0 u%d" % (root, sub, i))
+    files["Bank.1.0.dsdl"] = "\n".join(bank + ["@sealed"]) + "\n"
+    files["Choice.1.0.dsdl"] = "\n".join(choice + ["@sealed"]) + "\n"
+    files["77.Svc.1.0.dsdl"] = "%s.Bank.1.0[<=1] banks\n@sealed\n---\n%s.Choice.1.0 c\n%s.filter.Leaf.1.0[<=2] l\n@extent 65536\n" % (root, root, root)
+    return files
+
+
 def special_files():
     """hand-written definitions: everything the embedded model must reflect"""
     return {
@@ -1408,6 +1459,12 @@ def part_code_to_spec(ctx, pkg_a):
         pkgs.append(Pkg(ctx, "c18s", {k: v.replace("{ns}", "c18s") for k, v in special_files().items()}))
     except GeneratedCodeBroken as ex:
         ctx.violation(ex.sig, str(ex), {"dir": "code->spec", "seed": ctx.seed, "tier": ctx.tier, "files": special_files()})
+    for root in NS_ROOTS:
+        files = namespace_files(root)
+        try:
+            pkgs.append(Pkg(ctx, root, files))
+        except GeneratedCodeBroken as ex:
+            ctx.violation(ex.sig, str(ex), {"dir": "code->spec", "seed": ctx.seed, "tier": ctx.tier, "files": files, "ns": root})
     ntypes = ctx.pick(70, 140)
     for i in range(ctx.pick(3, 10)):
         ns = "c18r%d" % i
@@ -1463,8 +1520,11 @@ def run(ctx):
 def replay(ctx, case):
     if "files" in case:  # the generated package could not be imported
         try:
-            Pkg(ctx, "c18x", abstract_files("c18x") if case["files"] == "abstract_files" else
-                {k: v.replace("{ns}", "c18x").replace("c18s", "c18x") for k, v in case["files"].items()})
+            if "ns" in case:
+                Pkg(ctx, case["ns"], case["files"])
+            else:
+                Pkg(ctx, "c18x", abstract_files("c18x") if case["files"] == "abstract_files" else
+                    {k: v.replace("{ns}", "c18x").replace("c18s", "c18x") for k, v in case["files"].items()})
         except GeneratedCodeBroken as ex:
             ctx.violation(ex.sig, str(ex), case)
         return
